@@ -877,8 +877,8 @@ Error Assembler::_emit(InstId inst_id, const Operand_& o0, const Operand_& o1, c
       goto InvalidInstruction;
     }
 
-    // Condition code can only be used with 'B' instruction.
-    if (ASMJIT_UNLIKELY(inst_cc != CondCode::kAL && inst_id != Inst::kIdB)) {
+    // Condition code can only be used with 'B' and 'BC' instructions.
+    if (ASMJIT_UNLIKELY(inst_cc != CondCode::kAL && inst_id != Inst::kIdB && inst_id != Inst::kIdBc)) {
       goto InvalidInstruction;
     }
 
